@@ -4,6 +4,7 @@ CONSTANTS
   MaxSize = 150
   OpsUniverse <- U_ops
   Mirror = FALSE
+  ShareMemo = FALSE
   MaxOps = 0
   ViewUniverse <- U_views_thorough
   NumTrees = 6
